@@ -255,6 +255,14 @@ class C16(Check):
 
     def gen(self, tier, rng):
         q = tier == "quick"
+        # witnesses of the refuted variants (D11, D16) and friends run first
+        for fam in ("v6", "ip"):
+            for fn in FNS[fam]:
+                for raise_ in (False, True):
+                    for s in ("::1/+64", "::1/ 64", "::1/6_4", "::1/-0", "::1/64\n", "a\x00b", "::1\x00", "\x00",
+                              "::ffff:1.2.3.4\x00", "1.2.3.4\x00", "", "/", "::/", "/64", "::ffff:1.2.3.4/120",
+                              "::ffff:01.2.3.4", "::ffff:1.2.3.256", "1.2.3.4/8/8", "1:2:3:4:5:6:7:8:9", ":::", "1::2::3"):
+                        yield self.mk(fam, fn, raise_, s, "::1/64", tag="witness")
         # ================= IPv4 (and the generic module on IPv4 text) =================
         addrs = [[0, 0, 0, 0], [255, 255, 255, 255], [192, 168, 0, 1], [10, 0, 0, 255], [127, 128, 199, 200],
                  [1, 9, 10, 99], [100, 249, 250, 254], [128, 0, 0, 0], [0, 0, 0, 1], [172, 16, 254, 3]]
@@ -354,14 +362,6 @@ class C16(Check):
                             if rng.random() < 0.3:
                                 mu = mutate(mu, rng)
                             yield self.mk(fam, fn, raise_, mu, base, tag="mutated")
-        # regression witnesses of D11 / D16 and friends
-        for fam in ("v6", "ip"):
-            for fn in FNS[fam]:
-                for raise_ in (False, True):
-                    for s in ("::1/+64", "::1/ 64", "::1/6_4", "::1/-0", "::1/64\n", "a\x00b", "::1\x00", "\x00",
-                              "::ffff:1.2.3.4\x00", "1.2.3.4\x00", "", "/", "::/", "/64", "::ffff:1.2.3.4/120",
-                              "::ffff:01.2.3.4", "::ffff:1.2.3.256", "1.2.3.4/8/8", "1:2:3:4:5:6:7:8:9", ":::", "1::2::3"):
-                        yield self.mk(fam, fn, raise_, s, "::1/64", tag="witness")
         # generic module: mapped forms against their IPv4 address
         for _ in range(30 if q else 300):
             bs = [rng.choice(V4_BYTES + [rng.randrange(256)]) for _ in range(4)]
